@@ -6,7 +6,7 @@ import FeatModel.Model.MG
        napp { cycle cgc top crs  dlen d* }^napp
 
     output:  per application  `E k ev_1 … ev_k X n q_1 … q_n S 1`  (call log, vec_cor, status), blank separated;
-             `ABORT:range` | `ABORT:divzero` | `ABORT:sanity` when the real code is specified to abort. -/
+             `ABORT:range` | `ABORT:sanity` when the real code is specified to abort. -/
 open FeatModel FeatModel.Proto FeatModel.MG
 
 namespace FeatModel.DrvC09
@@ -66,7 +66,6 @@ def appsP (levels : Array Level) : Nat → Obj → List String → P String
         let line := s!"E {log.length}" ++ String.join (log.map (" " ++ ·)) ++ s!" X {showRatsL cor} S 1"
         appsP levels k o' (line :: acc)
       | (.abortRange, _) => pure "ABORT:range"
-      | (.abortDivZero, _) => pure "ABORT:divzero"
       | (.abortSanity, _) => pure "ABORT:sanity"
 
 def handle : P String := do
